@@ -3,6 +3,7 @@ package h
 import (
 	"fmt"
 	"math/rand"
+	"strings"
 	"sync"
 	"sync/atomic"
 	"time"
@@ -16,7 +17,7 @@ type HookFn func(point string, args []any)
 type hookEntry struct {
 	id    int64
 	point string // "" = any point
-	key   string // "" = any key; otherwise must equal fmt.Sprint(args[0]) (or any arg when anyArg)
+	key   string // "" = any key; otherwise some string argument of the hit must start with key
 	fn    HookFn
 }
 
@@ -48,7 +49,7 @@ func (r *hookRouter) dispatch(point string, args []any) {
 		if e.key != "" {
 			match := false
 			for _, a := range args {
-				if s, ok := a.(string); ok && s == e.key {
+				if s, ok := a.(string); ok && strings.HasPrefix(s, e.key) {
 					match = true
 					break
 				}
@@ -65,8 +66,8 @@ func (r *hookRouter) dispatch(point string, args []any) {
 	}
 }
 
-// OnHook registers fn for hits of `point` ("" = all points) whose string arguments contain key
-// ("" = all). It returns a function that removes the registration.
+// OnHook registers fn for hits of `point` ("" = all points) where some string argument
+// (run id, proxy name, group name, ...) starts with key ("" = all). It returns a function that removes the registration.
 // Handlers of case A never see hits of case B if keys embed the case id (names, run ids, groups).
 func OnHook(point, key string, fn HookFn) (remove func()) {
 	installHooks()
